@@ -1472,3 +1472,69 @@ func RBmFallback(c *core.Ctx) {
 		c.Anchor("the fallback fill of the good-suffix table in newBmPrefix")
 	}
 }
+
+// R-STRRUNES: String() is the text of Runes().
+// The engine works on runes: for string input every invalid byte IS the rune
+// U+FFFD (that is what RuneIndex / RuneLength count, what Runes() returns, what
+// a backreference compares and what Replace emits).  Capture.String() is the
+// encoding of exactly that rune slice — not a cut of the original bytes, which
+// differs as soon as the capture covers an invalid byte.
+func RStrRunes(c *core.Ctx) {
+	c.Rule("R-STRRUNES", "every value returned by Capture.String is string(E) where E is the expression Capture.Runes returns (or a call of Runes): the two accessors read the same rune slice, so String() == string(Runes()) for every input", 1)
+	p := c.P
+	pk := p.Pkg("")
+	info := pk.TypesInfo
+	sfn := p.LookupFunc("", "Capture.String")
+	rfn := p.LookupFunc("", "Capture.Runes")
+	sd, _ := p.DeclOf(sfn)
+	rd, _ := p.DeclOf(rfn)
+	if sd == nil || rd == nil {
+		c.Anchor("regexp2.Capture.String / Capture.Runes")
+		return
+	}
+	c.Visit("regexp2.(*Capture).String")
+	// what Runes returns (receiver names normalised)
+	norm := func(fd *ast.FuncDecl, e ast.Expr) string {
+		s := types.ExprString(e)
+		if fd.Recv != nil && len(fd.Recv.List) == 1 && len(fd.Recv.List[0].Names) == 1 {
+			s = strings.ReplaceAll(" "+s, " "+fd.Recv.List[0].Names[0].Name+".", " RECV.")
+			s = strings.ReplaceAll(s, "["+fd.Recv.List[0].Names[0].Name+".", "[RECV.")
+			s = strings.ReplaceAll(s, ":"+fd.Recv.List[0].Names[0].Name+".", ":RECV.")
+			s = strings.ReplaceAll(s, "+"+fd.Recv.List[0].Names[0].Name+".", "+RECV.")
+			s = strings.ReplaceAll(s, "("+fd.Recv.List[0].Names[0].Name+".", "(RECV.")
+		}
+		return strings.ReplaceAll(strings.TrimSpace(s), " ", "")
+	}
+	runesExprs := map[string]bool{}
+	ast.Inspect(rd.Body, func(x ast.Node) bool {
+		if rs, ok := x.(*ast.ReturnStmt); ok && len(rs.Results) == 1 {
+			runesExprs[norm(rd, rs.Results[0])] = true
+		}
+		return true
+	})
+	n := 0
+	ast.Inspect(sd.Body, func(x ast.Node) bool {
+		rs, ok := x.(*ast.ReturnStmt)
+		if !ok || len(rs.Results) != 1 {
+			return true
+		}
+		n++
+		okSame := false
+		if call, ok := ast.Unparen(rs.Results[0]).(*ast.CallExpr); ok && len(call.Args) == 1 {
+			if tv, ok := info.Types[call.Fun]; ok && tv.IsType() {
+				arg := call.Args[0]
+				if runesExprs[norm(sd, arg)] {
+					okSame = true
+				}
+				if c2, ok := ast.Unparen(arg).(*ast.CallExpr); ok && core.Callee(info, c2) == rfn {
+					okSame = true
+				}
+			}
+		}
+		c.Check(okSame, fmt.Sprintf("Capture.String / return #%d is the encoding of the rune slice Runes() returns", n), rs.Pos(), "`%s` is not string(<what Runes returns>): for string input with an invalid byte inside the capture the raw byte comes back instead of U+FFFD, so String() differs from string(Runes()), from what Replace substitutes for the group and from what a backreference compared", types.ExprString(rs.Results[0]))
+		return true
+	})
+	if n == 0 {
+		c.Anchor("return statements of Capture.String")
+	}
+}
